@@ -291,36 +291,38 @@ def ranges(chk):
                 ref = arg_obj(st, 'self', rv)
                 outs = run_case(chk, RT + '::<S>::len', [ref], st, {'S': S})
                 no_wrap(chk, '%s::len' % tagc, outs, fn_site(I, RT + '::<S>::len'))
-                ok = len(outs) == 2 and all(o.kind == 'ret' for o in outs)
+                # decided on the values, however the difference is taken (operator, raw subtraction, saturating / checked forms): a path that
+                # returns the constant 0 must be one on which the range is empty, every other path returns r with r * SIZE = end - start
+                # (minus one element for inclusive ranges)
+                ok = bool(outs) and all(o.kind == 'ret' for o in outs)
+                n_zero = n_diff = 0
                 if ok:
                     for o in outs:
-                        if isinstance(o.val, BV) and o.val.is_const():
-                            # empty branch: start >= end (exclusive) / start > end (inclusive)
-                            ok = ok and o.val.value() == 0 and any((not strict if not incl else strict) and same_bits(a, ebits if not incl else ebits, o) and True for strict, a, b in o.st.rel) or (ok and o.val.value() == 0)
-                        else:
-                            # (end - start) / SIZE (+ 1)
-                            s2 = I.resub(o.st, sbits)
-                            e2 = I.resub(o.st, ebits)
-                            d = None
-                            for e in o.st.events:
-                                if e[0] == 'iret' and e[1] == '<%s as core::ops::Sub>::sub' % AT:
-                                    d = e[2]
-                            okd = d is not None and I.aff_equal(o.st, I.exact_aff(o.st, d), I.aff_of(o.st, e2).add(I.aff_of(o.st, s2), -1))
-                            r = o.val
-                            if incl:
-                                # r = q + 1 exactly
-                                q = None
-                                for e in o.st.events:
-                                    if e[0] == 'iret' and e[1] == '<%s<S> as core::ops::Sub>::sub' % ET:
-                                        q = e[2]
-                                okq = q is not None and I.aff_equal(o.st, I.exact_aff(o.st, r), I.aff_of(o.st, q).add(Aff({}, 1)))
-                                qv = q
-                            else:
-                                okq = True
-                                qv = r
-                            dd = I.norm(o.st, d) if d is not None else None
-                            okdiv = dd is not None and isinstance(qv, BV) and tuple(I.norm(o.st, qv).bits[:64 - sb]) == tuple(dd.bits[sb:])
-                            ok = ok and okd and okq and okdiv
+                        s2 = I.norm(o.st, I.resub(o.st, sbits))
+                        e2 = I.norm(o.st, I.resub(o.st, ebits))
+                        r = I.norm(o.st, o.val) if isinstance(o.val, BV) else None
+                        if r is None:
+                            ok = False
+                            break
+                        if r.is_const() and r.value() == 0:
+                            # non-emptiness (start < end, or start <= end for inclusive ranges) must be impossible on this path
+                            t = o.st.clone()
+                            c = I.binop(t, 'Le' if incl else 'Lt', s2, e2)
+                            feasible = (c.is_const() and c.value() == 1) or (not c.is_const() and I.assume(t, c.bits[0], 1) and not t.dead)
+                            if feasible:
+                                ok = False
+                            n_zero += 1
+                            continue
+                        n_diff += 1
+                        q = r
+                        shifted = BV(64, [0] * sb + list(q.bits[:64 - sb]))
+                        top_clear = all(b == 0 for b in q.bits[64 - sb:]) or (I.rng_of(o.st, q) and max(y for _, y in I.rng_of(o.st, q)) < (1 << (64 - sb)))
+                        want = I.aff_of(o.st, e2).add(I.aff_of(o.st, s2), -1)
+                        if incl:
+                            want = want.add(Aff({}, 1 << sb))       # r = (end - start) / SIZE + 1  <=>  r * SIZE = end - start + SIZE
+                        if not (top_clear and I.aff_equal(o.st, I.exact_aff(o.st, shifted), want)):
+                            ok = False
+                    ok = ok and n_zero >= 1 and n_diff >= 1
                 chk.ob('range-agreement', '%s::len = (end - start) / SIZE%s when not empty, else 0' % (tagc, ' + 1' if incl else ''), ok, 'paths %r' % (outs,), fn_site(I, RT + '::<S>::len'))
                 # ---- size = SIZE * len
                 st = State()
